@@ -8,6 +8,7 @@ from fractions import Fraction as F
 import core
 import fracexec
 import rsmcoef
+import t3_util as T3
 from fracexec import frac_str, frac_list
 
 MODULE = 'UwgVerif.Props.C16'
@@ -45,9 +46,55 @@ CD_KINDS = ['random', 'random', 'zeros', 'allzero', 'large', 'zero-bottom', 'zer
 CO_KINDS = ['random', 'random', 'uniform', 'step', 'spike', 'ramp']
 
 
-def gen_diff(rng, nz=None, cdk=None, cok=None):
+MAG_KINDS = ['tiny-cd', 'tiny-cd-aloft', 'tiny-dt', 'huge-dz', 'tiny-dz', 'huge-cd-dt']
+
+
+def apply_magnitude(rng, cs, mag):
+    """Re-write a valid diffusion call in very small / very large numbers.  The diffusion number
+    K*dt/dz^2 (the off-diagonal of the system) becomes 1e-3 .. 1e-30 times (or 1e3 .. 1e20 times) what the
+    ordinary generator produces: weak mixing at every level or only aloft, a very short step, a very coarse or
+    very fine grid.  The step stays admissible, so every clause of the property applies unchanged."""
+    nz = cs['nz']
+    s = rng.choice(T3.SMALL_SCALES)
+    if mag == 'tiny-cd':
+        cs['cd'] = [v * s for v in cs['cd']]
+    elif mag == 'tiny-cd-aloft':
+        k = rng.randint(2, max(2, nz - 1))
+        cs['cd'] = [v if i < k else v * s for i, v in enumerate(cs['cd'])]
+    elif mag == 'tiny-dt':
+        cs['dt'] = (cs['dt'] if cs['dt'] > 0 else F(300)) * s
+    elif mag == 'huge-dz':
+        g = rng.choice(T3.LARGE_SCALES[:3])
+        cs['dz'] = [v * g for v in cs['dz']]
+    elif mag == 'tiny-dz':
+        g = rng.choice(T3.SMALL_SCALES[:4])
+        cs['dz'] = [v * g for v in cs['dz']]
+    elif mag == 'huge-cd-dt':
+        g = rng.choice(T3.LARGE_SCALES)
+        cs['cd'] = [v * g for v in cs['cd']]
+        cs['dt'] = cs['dt'] * rng.choice([1, 1000])
+    cs['mag'] = mag
+    return cs
+
+
+def diffusion_number(cs):
+    """Largest and smallest non-zero K*dt/dz^2/rho-type entry of the interior rows (classification only)."""
+    nz, dz, dt = cs['nz'], cs['dz'], cs['dt']
+    vals = []
+    for iz in range(1, nz - 1):
+        for j in (iz, iz + 1):
+            den = (dz[j] + dz[j - 1]) if j < nz else 2 * dz[nz]
+            v = 2 * cs['daz'][j] * cs['cd'][j] / den * dt / dz[iz] / cs['da'][iz]
+            if v != 0:
+                vals.append(v)
+    return (min(vals), max(vals)) if vals else (F(0), F(0))
+
+
+def gen_diff(rng, nz=None, cdk=None, cok=None, mag=None):
     """A valid call: positive dz/da/daz, cd >= 0, list lengths as at the call site in vdm
     (co, da: nz; daz, cd: nz+1; dz: longer than nz)."""
+    if mag:
+        return apply_magnitude(rng, gen_diff(rng, nz, cdk or rng.choice(['random', 'random', 'zeros']), cok), mag)
     nz = nz if nz is not None else rng.randint(3, 60)
     cdk = cdk or rng.choice(CD_KINDS)
     cok = cok or rng.choice(CO_KINDS)
@@ -176,6 +223,170 @@ def gen_system(rng, n=None, kind=None):
     elif kind == 'zero-pivot':
         A[0][1] = F(0)
     return dict(A=A, C=C, kind=kind, n=n)
+
+
+SCALED_KINDS = ['scaled-all', 'scaled-rows', 'weak-coupling', 'mixed-magnitudes']
+DOMINANT = ('sdd', 'sdd-neg', 'mrow') + tuple(SCALED_KINDS)
+
+
+def gen_scaled_system(rng, n=None, kind=None):
+    """A strictly diagonally dominant system written in very small / very large numbers: the whole system, or
+    every row by its own factor (1e-30 .. 1e20; the solution is unchanged), or the off-diagonals alone 1e-3 ..
+    1e-30 times the diagonal (weak coupling, in all rows or in some)."""
+    kind = kind or rng.choice(SCALED_KINDS)
+    sy = gen_system(rng, n if n is not None else rng.randint(1, 30), rng.choice(['sdd', 'sdd-neg', 'mrow']))
+    A, C = sy['A'], sy['C']
+    scales = T3.SMALL_SCALES + T3.LARGE_SCALES
+    for i in range(len(C)):
+        if kind == 'scaled-all':
+            s = scales[0] if i else rng.choice(scales)
+            scales = [s]
+        elif kind == 'scaled-rows':
+            s = rng.choice(scales + [F(1)])
+        else:
+            s = F(1)
+        e = F(1)
+        if kind == 'weak-coupling' or (kind == 'mixed-magnitudes' and rng.random() < 0.5):
+            e = rng.choice(T3.SMALL_SCALES)
+        A[i] = [A[i][0] * s * e, A[i][1] * s, A[i][2] * s * (e if kind != 'mixed-magnitudes' else
+                                                              rng.choice([e, e, F(1)]))]
+        C[i] = C[i] * s
+    sy['kind'] = kind
+    return sy
+
+
+# ----------------------------------------------------------------------------- float level
+EPS64 = 64 * 2.0 ** -52
+
+
+def float_residual_msg(A, C, xs, what='equation'):
+    """|A x - C| row by row, evaluated exactly on the doubles, against 64 ulp of the row's own magnitude
+    (the elimination is backward stable for dominant rows: measured <= 1.1 ulp on the unchanged code)."""
+    n = len(C)
+    for i in range(n):
+        terms = [F(A[i][1]) * F(xs[i])]
+        if i > 0:
+            terms.append(F(A[i][0]) * F(xs[i - 1]))
+        if i < n - 1:
+            terms.append(F(A[i][2]) * F(xs[i + 1]))
+        r = abs(sum(terms) - F(C[i]))
+        scale = sum(abs(t) for t in terms) + abs(F(C[i]))
+        if r > F(EPS64) * scale:
+            return '%s %d: residual %.3e is %.1e times the magnitude of the row (doubles; 64 ulp allowed)' % (
+                what, i, float(r), float(r / scale))
+    return None
+
+
+def float_solver_oracles(chk, quick):
+    """Float level, plain package: (1) both `invert`s are homogeneous - multiplying the whole system by a power
+    of two is exact in binary floating point, so the solution must be bit-identical; (2) the result for dominant
+    systems written in small / large numbers solves the system to 64 ulp; (3) diffusion steps written in small /
+    large numbers: bottom, top, bounds (1e-12 relative) and residual of the system handed to invert."""
+    core.repo_python_path()
+    import importlib
+    R = importlib.import_module('uwg.RSMDef').RSMDef
+    E = importlib.import_module('uwg.element').Element
+    rng = chk.rng
+    powers = [-900, -200, -60, -50, -40, -34, -30, -20, -10, -3, 3, 10, 34, 60, 200, 900]
+    for name, cls in (('RSMDef.invert', R), ('Element.invert', E)):
+        n_hom, n_res, bad = 0, 0, []
+        br = {}
+        for _ in range(60 if quick else 600):
+            sy = gen_system(rng, rng.randint(1, 30), rng.choice(['sdd', 'sdd-neg', 'mrow']))
+            A = [[float(v) for v in r] for r in sy['A']]
+            C = [float(v) for v in sy['C']]
+            x0 = cls.invert(len(C), copy.deepcopy(A), list(C))
+            for k in powers:
+                s = 2.0 ** k
+                big = max(abs(v) for r in A for v in r) * max(1.0, max(abs(v) for v in C))
+                if k > 0 and big * s * s > 1e300 or k < 0 and s * s < 1e-300 * big:
+                    continue                      # products inside the elimination would leave the double range
+                xs = cls.invert(len(C), [[v * s for v in r] for r in A], [v * s for v in C])
+                n_hom += 1
+                br['2^%d' % k] = br.get('2^%d' % k, 0) + 1
+                if list(xs) != list(x0) and len(bad) < 2:
+                    i = [a != b for a, b in zip(xs, x0)].index(True)
+                    bad.append(({'A': A, 'C': C, 'scale': '2**%d' % k},
+                                'system multiplied by 2**%d (exact in doubles): unknown %d is %r, for the '
+                                'unscaled system %r' % (k, i, xs[i], x0[i])))
+        for _ in range(150 if quick else 1500):
+            sy = gen_scaled_system(rng)
+            A = [[float(v) for v in r] for r in sy['A']]
+            C = [float(v) for v in sy['C']]
+            try:
+                xs = cls.invert(len(C), copy.deepcopy(A), list(C))
+            except (ZeroDivisionError, OverflowError):
+                continue
+            n_res += 1
+            br[sy['kind']] = br.get(sy['kind'], 0) + 1
+            msg = float_residual_msg(A, C, xs)
+            if msg and len(bad) < 3:
+                bad.append(({'A': A, 'C': C, 'kind': sy['kind']}, msg))
+        for case, msg in bad:
+            chk.violation('impl-violation', 'float-level exact-solution oracle on %s' % name, case=case,
+                          observed=msg, expected='A x = C (bit-identical under power-of-two scaling; residual '
+                                                 'within 64 ulp of the row magnitude)')
+        chk.direct('float-oracle(%s: homogeneity + residual)' % name, n_hom + n_res, n_hom + n_res,
+                   'plain float %s on dominant systems: multiplied as a whole by 2**k, k in %s, the solution is '
+                   'bit-identical (power-of-two scaling is exact in doubles, so ANY absolute threshold inside the '
+                   'solver shows); written in small / large decimal numbers (whole system, single rows, '
+                   'off-diagonals 1e-3..1e-30 times the diagonal) the exact residual of the doubles stays within '
+                   '64 ulp of the row magnitude' % (name, powers), mismatches=len(bad), branches=br)
+    # diffusion steps in floats
+    orig = R.__dict__['invert']
+    f = orig.__func__
+    n, bad, br = 0, [], {}
+    for mag in MAG_KINDS + ['ordinary']:
+        for _ in range(25 if quick else 250):
+            cs = gen_diff(rng, nz=rng.randint(3, 40), mag=None if mag == 'ordinary' else mag)
+            dn_max = diffusion_number(cs)[1]
+            if dn_max > 10 ** 6:
+                # beyond ~1e16 the doubles lose the identity part of 1 + K*dt/dz^2 and a decoupled upper column
+                # becomes singular: rounding, outside the exact theorems (the exact tie covers these steps)
+                br['skipped(diffusion number > 1e6)'] = br.get('skipped(diffusion number > 1e6)', 0) + 1
+                continue
+            cap = []
+
+            def spy(nz, A, C):
+                cap.append((copy.deepcopy(A), list(C)))
+                return f(nz, A, C)
+            R.invert = staticmethod(spy)
+            try:
+                fl = {k: [float(v) for v in cs[k]] for k in ('co', 'da', 'daz', 'cd', 'dz')}
+                xs = R.diffusion_equation(cs['nz'], float(cs['dt']), fl['co'], fl['da'], fl['daz'], fl['cd'],
+                                          fl['dz'])
+            except (ZeroDivisionError, OverflowError):
+                continue
+            finally:
+                R.invert = orig
+            n += 1
+            br[mag] = br.get(mag, 0) + 1
+            nz, co = cs['nz'], fl['co']
+            lo, hi = min(co[:nz - 1]), max(co[:nz - 1])
+            # forward error of the elimination: the pivots 1 + |a| + |c| - |c||a'|/b' cancel to relative accuracy
+            # ~ ulp * diffusion number, accumulated over nz rows (measured 1.4e-12 at a diffusion number of 5e3)
+            tol = max(1e-12, EPS64 * float(dn_max) * nz) * max(abs(v) for v in co)
+            msg = None
+            if xs[0] != co[0]:
+                msg = 'lowest level %r != co[0] %r' % (xs[0], co[0])
+            elif xs[nz - 1] != xs[nz - 2]:
+                msg = 'top two levels differ: %r vs %r' % (xs[nz - 1], xs[nz - 2])
+            elif not all(lo - tol <= v <= hi + tol for v in xs):
+                i = [not (lo - tol <= v <= hi + tol) for v in xs].index(True)
+                msg = 'level %d = %r outside [%r, %r] of the old profile (tolerance %.1e K)' % (i, xs[i], lo, hi, tol)
+            else:
+                msg = float_residual_msg(cap[-1][0], cap[-1][1], xs, 'row')
+            if msg and len(bad) < 2:
+                bad.append((dict(case_json(cs), float_inputs=True), msg))
+    for case, msg in bad:
+        chk.violation('impl-violation', 'float-level C16 oracle on RSMDef.diffusion_equation', case=case,
+                      observed=msg, expected='bottom, top exact; bounds within max(1e-12, 64 ulp * diffusion number * nz) relative; rows of the system '
+                                             'solved to 64 ulp')
+    chk.direct('float-oracle(RSMDef.diffusion_equation, small / large numbers)', n, n,
+               'plain float diffusion_equation on admissible steps whose diffusion number K*dt/dz^2 is 1e-3 .. '
+               '1e-30 times the ordinary one, or larger up to 1e6 in absolute terms (%s): bottom and top identities exact, bounds '
+               'within max(1e-12, 64 ulp * diffusion number * nz) * max|T|, exact residual of the doubles within 64 ulp per row' % ', '.join(MAG_KINDS),
+               mismatches=len(bad), branches=br)
 
 
 # ----------------------------------------------------------------------------- protocol
@@ -446,7 +657,9 @@ def run(chk):
     # ---- diffusion_equation
     cases = [gen_diff(chk.rng, nz=nn) for nn in range(3, 61) for _ in ((0, 1) if quick else range(6))]
     cases += [gen_diff(chk.rng, nz=chk.rng.randint(3, 30)) for _ in range(300 if quick else 3000)]
-    cases += [gen_diff(chk.rng, nz=nn, cdk=k) for nn in (3, 4, 17) for k in set(CD_KINDS)]
+    cases += [gen_diff(chk.rng, nz=nn, cdk=k) for nn in (3, 4, 17) for k in sorted(set(CD_KINDS))]   # sorted: set order depends on PYTHONHASHSEED
+    cases += [gen_diff(chk.rng, nz=chk.rng.randint(3, 24), mag=m) for m in MAG_KINDS
+              for _ in range(20 if quick else 200)]
     cases += [gen_malformed(chk.rng) for _ in range(300 if quick else 3000)]
     results, caps = [], []
     for cs in cases:
@@ -454,15 +667,22 @@ def run(chk):
         results.append(impl_diff(pkg, cs, cap))
         caps.append(cap)
     pairs = [(line_diff(cs), fmt(r)) for cs, r in zip(cases, results)]
-    kinds = {line_diff(cs): cs['kind'] if cs['kind'] != 'valid' else 'valid/cd-' + cs['cdk']
-             for cs in cases}
+    kinds = {line_diff(cs): cs['kind'] if cs['kind'] != 'valid' else 'valid/cd-' + cs['cdk'] +
+             ('/' + cs['mag'] if cs.get('mag') else '') for cs in cases}
+    dn = [diffusion_number(cs) for cs in cases if cs['kind'] == 'valid' and cs.get('mag')]
+    chk.measurements['diffusion_number_range(small / large families)'] = {
+        'smallest_nonzero': float(min(v[0] for v in dn if v[0] > 0)), 'largest': float(max(v[1] for v in dn)),
+        'cases_with_an_entry_below_1e-10': sum(1 for v in dn if 0 < v[0] < F(1, 10 ** 10))}
     chk.correspond(
         'RSMDef.diffusion_equation~diffusion', 'C16', pairs,
         rule='fractionised RSMDef.diffusion_equation vs Lean `diffusion` (guard in Python '
              'evaluation order + rows + checked solver) on profiles with nz = 3..60 (every count), '
              'cd with zeros / all zero / large, uniform / step / spike / ramp / random profiles, '
              'plus edge and malformed calls (nz = 0,1,2, short lists, zero spacing or density, '
-             'negative coefficients, two simultaneous faults); exact equality of the rational '
+             'negative coefficients, two simultaneous faults); steps written in very small / very large numbers '
+             '(weak mixing at every level or only aloft, cd x 1e-3..1e-30; a very short step, dt x 1e-3..1e-30; a '
+             'very coarse / very fine grid, dz x 1e3..1e12 / 1e-3..1e-10; cd x 1e3..1e20): the diffusion number '
+             'K*dt/dz^2 ranges over sixty orders of magnitude; exact equality of the rational '
              'profile or of the error class; non-trivial = non-error result',
         classify=lambda line, impl: kinds.get(line, '?'))
     bad = 0
@@ -488,6 +708,7 @@ def run(chk):
     systems = [gen_system(chk.rng, n=nn) for nn in range(1, 61)]
     systems += [gen_system(chk.rng, n=chk.rng.randint(1, 25)) for _ in range(300 if quick else 3000)]
     systems += [gen_system(chk.rng, n=nn, kind='zero-pivot') for nn in (1, 2, 3, 7)]
+    systems += [gen_scaled_system(chk.rng, kind=k) for k in SCALED_KINDS for _ in range(40 if quick else 400)]
     systems += [dict(A=[], C=[], kind='empty', n=0)]
     skinds = {line_sys(sy): sy['kind'] for sy in systems}
     for name, cls in (('RSMDef.invert', rsm_class()), ('Element.invert', element_class())):
@@ -497,13 +718,15 @@ def run(chk):
             rule='fractionised %s vs Lean `solveChecked` on tridiagonal systems with 1..60 '
                  'unknowns: strictly diagonally dominant (positive and negative diagonals, '
                  'off-diagonals of both signs), M-matrix rows, arbitrary rows, planted zero '
-                 'pivots (ZeroDivisionError on both sides); exact equality' % name,
+                 'pivots (ZeroDivisionError on both sides); dominant systems written in very small / very large '
+                 'numbers (whole system or single rows x 1e-30..1e20, off-diagonals 1e-3..1e-30 times the '
+                 'diagonal in all or some rows); exact equality' % name,
             classify=lambda line, impl: skinds.get(line, '?'))
         bad = 0
         for sy, r in zip(systems, res):
             if isinstance(r, str):
                 msg = ('strictly diagonally dominant system raises %s' % r
-                       if sy['kind'] in ('sdd', 'sdd-neg', 'mrow') else None)
+                       if sy['kind'] in DOMINANT else None)
             else:
                 msg = residual_msg(sy['A'], sy['C'], r)
             if msg:
@@ -516,6 +739,8 @@ def run(chk):
                    'A x = C checked exactly on the result of the real solver', mismatches=bad,
                    branches={k: sum(1 for s in systems if s['kind'] == k)
                              for k in sorted(set(s['kind'] for s in systems))})
+
+    float_solver_oracles(chk, quick)
 
     # ---- live profiles (floats; sanity only, with a tolerance that rounding cannot reach)
     coef_rec, hyp_rec = [], []
